@@ -464,3 +464,51 @@ func VC_C04_variadic_in_typed() {
 	verifAssert(got == 7 || got == -1, "C04.variadic-in-typed.result-is-configured")
 	verifReached("C04.variadic-in-typed")
 }
+
+func vFP04(p *int, e error) int { return 0 }
+
+type vErr04 struct{}
+
+func (*vErr04) Error() string { return "e" }
+
+// VC_C04_in_nil_alternative: nil among the alternatives of In (or arg.In inside When) for
+// a pointer / interface parameter: a call passing nil there is a member, a call passing
+// another listed value is a member, every other call is not.
+func VC_C04_in_nil_alternative() {
+	vEnv()
+	defer func() {
+		if e := recover(); e != nil {
+			verifAssert(false, "C04.in-nil.no-panic")
+		}
+	}()
+	x, y := 1, 2
+	e1 := error(&vErr04{})
+	w, err := CreateWhen(nil, vFP04, nil, []interface{}{-1}, false)
+	verifAssert(err == nil, "C04.in-nil.create-ok")
+	form := verifChoice("form", 3)
+	switch form {
+	case 0: // tuples of alternatives for both parameters
+		w.In([]interface{}{nil, nil}, []interface{}{&x, e1}).Return(5)
+	case 1: // arg.In for the first parameter, an exact second one
+		w.When(arg.In(nil, &x), nil).Return(5)
+	default: // arg.In for the interface parameter
+		w.When(&x, arg.In(nil, e1)).Return(5)
+	}
+	ps := [3]*int{nil, &x, &y}
+	es := [2]error{nil, e1}
+	pi, ei := verifChoice("p", 3), verifChoice("e", 2)
+	f := vStubFunc(w).(func(*int, error) int)
+	got := f(ps[pi], es[ei])
+	var member bool
+	switch form {
+	case 0:
+		member = (pi == 0 && ei == 0) || (pi == 1 && ei == 1)
+	case 1:
+		member = pi <= 1 && ei == 0
+	default:
+		member = pi == 1
+	}
+	verifAssert((got == 5) == member, "C04.in-nil.membership")
+	verifAssert(got == 5 || got == -1, "C04.in-nil.result-is-configured")
+	verifReached("C04.in-nil")
+}
